@@ -5,6 +5,7 @@ import Model.C18.Amount
 import Model.C18.SpendSize
 import Model.C18.PsbtSize
 import Model.C18.SigOps
+import Model.C18.BlockSize
 import Generated.Fee
 open Btc Btc.C18
 
@@ -74,6 +75,13 @@ def insTok? (s : String) : Option (List (Nat × List Nat)) :=
       pure (a, w)
     | _ => none
 
+/-- transactions as `segwit:nIn:nOut:ins:outs:wits;…` -/
+def partsTok? (s : String) : Option (List TxParts) :=
+  (s.splitOn ";").mapM fun t =>
+    match (t.splitOn ":").mapM String.toNat? with
+    | some [sw, a, b, c, d, e] => some ⟨sw == 1, a, b, c, d, e⟩
+    | _ => none
+
 /-- line protocol of property C18: see harness/c18.py -/
 def handle : List String → String
   | "gen" :: "Fee" :: fn :: args => (Gen.Fee.dispatch fn args).getD "bad-op"
@@ -128,6 +136,12 @@ def handle : List String → String
     | some ins, some ls =>
       let outs := (ls.map fun l => 8 + (cs l + l)).sum
       s!"ok {txSize true ins ls.length outs} {txWeight ins ls.length outs}"
+    | _, _ => "bad-op"
+  | ["size.block", _seed, _nTx, _nIn, _segwit, hdr, parts] =>
+    match parseInt? hdr, partsTok? parts with
+    | some hdr, some txs =>
+      let last := txs.getLast?.getD ⟨false, 0, 0, 0, 0, 0⟩
+      s!"ok {blockSer hdr true txs} {blockSer hdr false txs} {blockW hdr txs} {(txs.map txW).sum} {txSer true last} {txW last}"
     | _, _ => "bad-op"
   | ["sigops.count", hex] => (fromHex? hex).elim "bad-op" fun b => s!"ok {sigOpCount b}"
   | _ => "bad-op"
